@@ -128,4 +128,59 @@ theorem composite2_aabb_contains (S : V2 K → Prop) (box : Aabb2 K) (m : Iso2 K
     ∀ p, S p → BMem2 (box.transformBy m) (m.act p) :=
   fun p hp => aabb2_transformBy_contains sq box m p (h p hp)
 
+/-! ## HeightField (2-D) -/
+
+private theorem fmax_ge (hs : List K) : ∀ acc : K, acc ≤ hs.foldl (fun a b => max a b) acc ∧ ∀ h ∈ hs, h ≤ hs.foldl (fun a b => max a b) acc := by
+  induction hs with
+  | nil => intro acc; exact ⟨le_refl _, (fun h hh => by cases hh)⟩
+  | cons x xs ih =>
+    intro acc
+    obtain ⟨i1, i2⟩ := ih (max acc x)
+    refine ⟨le_trans (le_max_left _ _) i1, ?_⟩
+    intro h hh
+    rcases List.mem_cons.1 hh with rfl | hh
+    · exact le_trans (le_max_right _ _) i1
+    · exact i2 h hh
+private theorem fmin_le (hs : List K) : ∀ acc : K, hs.foldl (fun a b => min a b) acc ≤ acc ∧ ∀ h ∈ hs, hs.foldl (fun a b => min a b) acc ≤ h := by
+  induction hs with
+  | nil => intro acc; exact ⟨le_refl _, (fun h hh => by cases hh)⟩
+  | cons x xs ih =>
+    intro acc
+    obtain ⟨i1, i2⟩ := ih (min acc x)
+    refine ⟨le_trans i1 (min_le_left _ _), ?_⟩
+    intro h hh
+    rcases List.mem_cons.1 hh with rfl | hh
+    · exact le_trans i1 (min_le_right _ _)
+    · exact i2 h hh
+private theorem sbetween (lo hi s x : K) (h1 : lo ≤ x) (h2 : x ≤ hi) :
+    min (lo * s) (hi * s) ≤ x * s ∧ x * s ≤ max (lo * s) (hi * s) := by
+  rcases le_total 0 s with hs | hs
+  · exact ⟨(min_le_left _ _).trans (mul_le_mul_of_nonneg_right h1 hs),
+           le_trans (mul_le_mul_of_nonneg_right h2 hs) (le_max_right _ _)⟩
+  · exact ⟨(min_le_right _ _).trans (mul_le_mul_of_nonpos_right h2 hs),
+           le_trans (mul_le_mul_of_nonpos_right h1 hs) (le_max_left _ _)⟩
+
+/-- **HeightField box (2-D, as corrected)**: for every scale vector, of any signs, every vertex `(u·s.x, h·s.y)`
+(`u ∈ [-1/2, 1/2]`, `h` one of the heights) lies in the box; hence so does every segment of the heightfield. -/
+theorem heightfield2_aabb_contains (h0 : K) (hs : List K) (s : V2 K) (u h : K)
+    (hu : -(1/2) ≤ u ∧ u ≤ 1/2) (hh : h ∈ h0 :: hs) :
+    letI := fieldNum K sq
+    BMem2 (heightfieldAabb2 h0 hs s) ⟨u * s.x, h * s.y⟩ := by
+  have hl : ((mkRat 1 2 : Rat) : K) = 1/2 := by norm_num
+  have hmax : h ≤ hs.foldl (fun a b => max a b) h0 := by
+    rcases List.mem_cons.1 hh with rfl | hh
+    · exact (fmax_ge hs _).1
+    · exact (fmax_ge hs _).2 h hh
+  have hmin : hs.foldl (fun a b => min a b) h0 ≤ h := by
+    rcases List.mem_cons.1 hh with rfl | hh
+    · exact (fmin_le hs _).1
+    · exact (fmin_le hs _).2 h hh
+  have bx := sbetween (-(1/2)) (1/2) s.x u hu.1 hu.2
+  have by' := sbetween _ _ s.y h hmin hmax
+  simp only [heightfieldAabb2, listMax, listMin, BMem2, V2.inf, V2.sup, V2.smul, fieldNum_nmin, fieldNum_nmax, fieldNum_lit, hl]
+  have e1 : -(s.x * (1/2)) = -(1/2) * s.x := by ring
+  have e2 : s.x * (1/2) = 1/2 * s.x := by ring
+  rw [e1, e2]
+  exact ⟨bx, by'⟩
+
 end C09
